@@ -516,6 +516,8 @@ type Contract struct {
 	Opaque   map[string]bool // callees to treat as opaque even if contracted
 	Inline   bool
 	AssumeAfter map[string][]*Clause // label -> assumptions made right after a watched call returns (listed)
+	MayAbsent   map[string]bool      // watch labels allowed to match no call (clauses that forbid a call)
+	Effects     map[string][]string  // label -> locations the watched (opaque) call may write besides what opaque code writes: call-backs into this repository
 	Uses     []string // lemmas (proved separately) assumed at entry
 	FreshResult bool // the (single, pointer) result is a freshly allocated object no one else references
 	Stable   []string // locations assumed not to be written by opaque callees (listed assumption)
@@ -697,6 +699,26 @@ func (cs *ContractSet) LoadContractFile(path, pkgPath string, assumed bool) erro
 				cur.AssumeAfter = map[string][]*Clause{}
 			}
 			cur.AssumeAfter[lab] = append(cur.AssumeAfter[lab], c)
+		case "mayabsent":
+			if cur.MayAbsent == nil {
+				cur.MayAbsent = map[string]bool{}
+			}
+			for _, a := range splitTop(rest, ',') {
+				if a = strings.TrimSpace(a); a != "" {
+					cur.MayAbsent[a] = true
+				}
+			}
+		case "effect":
+			// effect <Label> <designator>, ... : the call labelled L may also write these locations
+			lab, r2 := splitWord(rest)
+			if cur.Effects == nil {
+				cur.Effects = map[string][]string{}
+			}
+			for _, a := range splitTop(r2, ',') {
+				if a = strings.TrimSpace(a); a != "" {
+					cur.Effects[lab] = append(cur.Effects[lab], a)
+				}
+			}
 		case "stable":
 			for _, a := range splitTop(rest, ',') {
 				if a = strings.TrimSpace(a); a != "" {
